@@ -173,6 +173,12 @@ theorem filter_pending (l : List α) : (l.map (·, false)).filter (·.2) = [] :=
   | nil => rfl
   | cons a t ih => simp
 
+/-- `fill` pads what the source returned to exactly the malloc'ed block: the data written into the slice
+`Malloc(block4k)` returned has that length (the `Contract` clause of `.malloc`) -/
+theorem pad_length (d : List α) (x : α) (b : Nat) (hd : d.length ≤ b) :
+    (d ++ List.replicate (b - d.length) x).length = ((b : Nat) : Int).toNat := by
+  simp; omega
+
 theorem contract_round [DecidableEq α] {q : Q α} (h : AllF q.items) (hf : QFlags q) (b : Nat) (d : List α) (x : α) (num' : Int)
     (hd : d.length ≤ b) (hnl : num'.toNat = d.length) (hn : 0 ≤ num'):
     let op1 : Op α := .malloc b (d ++ List.replicate (b - d.length) x)
@@ -185,9 +191,11 @@ theorem contract_round [DecidableEq α] {q : Q α} (h : AllF q.items) (hf : QFla
     subst hb0
     have : num' = 0 := by omega
     subst this
+    have hd0 : d = [] := by apply List.eq_nil_of_length_eq_zero; omega
+    subst hd0
     simp [Contract, specStep, h1, h2, h3, h4]
   · simp only [Contract, specStep, hb, hneg, if_false, h1, h2, h3, h4, Q.mallocLen, List.filter_append,
-      allF_filter_not h, filter_not_pending]
+      allF_filter_not h, filter_not_pending, pad_length d x b hd]
     simp
     omega
 
@@ -461,7 +469,7 @@ theorem contract_read {q : Q α} (h : AllF q.items) (hf : QFlags q) :
     (∀ n, Contract q (.next n) = true) ∧ (∀ n, Contract q (.peek n) = true) ∧ (∀ n, Contract q (.skip n) = true) ∧
     (∀ n, Contract q (.readBinary n) = true) ∧ Contract q .readByte = true ∧ (∀ c, Contract q (.until c) = true) ∧
     Contract q .release = true ∧ Contract q .len = true := by
-  simp [Contract, hf.1, Q.readOK_of_allF h]
+  simp [Contract, hf.1, hf.2.2.2, Q.readOK_of_allF h]
 
 
 /-- the call handed out exactly `bs`: the next bytes of the source stream after what had been delivered before -/
@@ -903,9 +911,15 @@ def wspec : (List α × List α) → WOp α → (List α × List α)
   | (s, p), .flush => (s ++ p, [])
   | (s, p), .mallocLen => (s, p)
 
-/-- the writer contract: `MallocAck(n)` needs `n ≤ MallocLen()` -/
+/-- the writer contract (the clauses of the C01 `Contract` a caller of the Writer must respect):
+`MallocAck(n)` needs `n ≤ MallocLen()`; the data `d` written into the slice `Malloc(n)` returned has length `n`;
+`WriteBinary(p)` is given `cap(p) ≥ len(p)` (true of every Go slice) -/
 def WContract (w : ZCWriter α) : WOp α → Prop
   | .mallocAck n => n ≤ (w.q.mallocLen : Int)
+  -- `d` is what the caller wrote into the slice `Malloc(n)` returned: it has that length
+  | .malloc n d => d.length = n.toNat
+  -- `pcap` is `cap(p)` of a Go slice: never below `len(p)`
+  | .writeBinary p pcap => p.length ≤ pcap
   | _ => True
 
 def ZCWriter.run [DecidableEq α] (w : ZCWriter α) (ops : List (WOp α)) : ZCWriter α :=
@@ -957,11 +971,13 @@ theorem WGood.call [DecidableEq α] {w : ZCWriter α} (hw : WGood w) {op : Op α
   refine ⟨WGood.of_shape hsh hw.stream hf (by simp [hw.inC, hc]), hsh.facts.2.1, rfl, rfl⟩
 
 theorem contract_write {q : Q α} (hf : QFlags q) :
-    (∀ n d, Contract q (.malloc n d) = true) ∧ (∀ p c, Contract q (.writeBinary p c) = true) ∧
+    (∀ n d, d.length = n.toNat → Contract q (.malloc n d) = true) ∧
+    (∀ p c, p.length ≤ c → Contract q (.writeBinary p c) = true) ∧
     (∀ a, Contract q (.writeByte a) = true) ∧ (∀ n, n ≤ (q.mallocLen : Int) → Contract q (.mallocAck n) = true) ∧
     Contract q .flush = true ∧ Contract q .mallocLen = true := by
   obtain ⟨h1, h2, h3, h4⟩ := hf
-  simp [Contract, h1, h2, h3, h4]
+  simp only [Contract, h1, h2, h3, h4]
+  simp
 
 theorem shape_malloc [DecidableEq α] {q : Q α} {F P : List α} (h : Shape q F P) (n : Int) (d : List α) :
     Shape (specStep q (.malloc n d)).1 F (if n ≤ 0 then P else P ++ d) := by
@@ -1042,7 +1058,7 @@ theorem flush_eq [DecidableEq α] {w : ZCWriter α} (hw : WGood w) :
   by_cases hn : out.1.1 > 0
   · have hsk := skip_allF hall out.1.1 hle
     have c3 : Contract q1 (.skip (out.1.1 : Int)) = true := by
-      simp [Contract, hfl.1, Q.readOK_of_allF hall]
+      simp [Contract, hfl.1, hfl.2.2.2, Q.readOK_of_allF hall]
     have c4 : Contract { q1 with items := q1.items.drop out.1.1 } .release = true := by
       simp [Contract, hfl.1]
     simp only [hn, if_true, hsk, c3, c4, Bool.and_true]
@@ -1099,10 +1115,10 @@ theorem wstep_ok [DecidableEq α] {w : ZCWriter α} (hw : WGood w) (op : WOp α)
     ((w.step op).1.submitted, (w.step op).1.q.pendingBytes) = wspec (w.submitted, w.q.pendingBytes) op := by
   cases op with
   | malloc n d =>
-    obtain ⟨g, hp, hs, _⟩ := hw.call ((contract_write hw.flags).1 n d) (shape_malloc hw.shape n d) ((flags_simple hw.flags).1 n d)
+    obtain ⟨g, hp, hs, _⟩ := hw.call ((contract_write hw.flags).1 n d hc) (shape_malloc hw.shape n d) ((flags_simple hw.flags).1 n d)
     exact ⟨g, by simp only [ZCWriter.step, wspec, hp, hs]⟩
   | writeBinary p c =>
-    obtain ⟨g, hp, hs, _⟩ := hw.call ((contract_write hw.flags).2.1 p c) (shape_writeBinary hw.shape p c) ((flags_simple hw.flags).2.1 p c)
+    obtain ⟨g, hp, hs, _⟩ := hw.call ((contract_write hw.flags).2.1 p c hc) (shape_writeBinary hw.shape p c) ((flags_simple hw.flags).2.1 p c)
     exact ⟨g, by simp only [ZCWriter.step, wspec, hp, hs]⟩
   | writeByte a =>
     obtain ⟨g, hp, hs, _⟩ := hw.call ((contract_write hw.flags).2.2.1 a) (shape_writeByte hw.shape a) ((flags_simple hw.flags).2.2.1 a)
@@ -1165,7 +1181,7 @@ theorem ioWrite_spec [DecidableEq α] {q : Q α} (hq : QGood q) (p : List α) :
       simpa using hsh
   obtain ⟨hitems, hfb, _⟩ := flush_q hsh'
   have hf1 := (flags_simple hf).1 (p.length : Int) p
-  have c1 := (contract_write hf).1 (p.length : Int) p
+  have c1 := (contract_write hf).1 (p.length : Int) p (by simp)
   have c2 := (contract_write hf1).2.2.2.2.1
   refine ⟨⟨?_, ?_⟩, ?_, rfl, ?_⟩
   · show AllF (specStep (specStep q (.malloc (p.length : Int) p)).1 .flush).1.items
